@@ -90,6 +90,9 @@ def compute_shape_features(sig, fs, f_range, center_extrema='peak',
         raise ValueError("This function has been designed to assume that the first extrema "
                          "identified will be a peak. This cannot be overwritten at this time.")
 
+    # Integer-typed signals would wrap around when negated or subtracted
+    sig = np.asarray(sig, dtype='float64')
+
     # Negate signal if set to analyze trough-centered cycles
     if center_extrema == 'peak':
         pass
@@ -250,6 +253,9 @@ def compute_symmetry(df_samples, sig, period=None, time_peak=None, time_trough=N
     >>> df_samples = compute_cyclepoints(sig, fs, f_range=(8, 12))
     >>> sym_features = compute_symmetry(df_samples, sig)
     """
+
+    # Integer-typed signals would wrap around when subtracted
+    sig = np.asarray(sig, dtype='float64')
 
     # Determine rise and decay characteristics
     sym_features = {}
